@@ -516,11 +516,11 @@ Proof.
   apply Z.eqb_neq in H6. rewrite H6. cbn. rewrite H4. cbn.
   destruct (conn s && negb (failw s)) eqn:E; cbn.
   - rewrite H1. cbn. destruct (tmo s) eqn:Et; cbn.
-    + rewrite (H8 eq_refl). cbn. rewrite H1. rec_eq.
+    + rewrite H1. rec_eq.
     + rewrite H1. rec_eq.
     + rewrite H1. rec_eq.
   - rewrite Z.eqb_refl, H7. cbn. rewrite H1. cbn. destruct (tmo s) eqn:Et; cbn.
-    + rewrite (H8 eq_refl). cbn. rewrite H1. rec_eq.
+    + rewrite H1. rec_eq.
     + rewrite H1. rec_eq.
     + rewrite H1. rec_eq.
 Qed.
@@ -750,7 +750,7 @@ Proof.
     change (started (emit (set_conn s false) EDrop)) with (started s). rewrite (Jc Ec).
     set (s1 := emit (set_conn s false) EDrop).
     assert (Hsd : stop_drain s1 = set_timer s1 TOff (match tmo s with TOff => false | _ => tok s end)).
-    { unfold stop_drain. subst s1; cbn. destruct (tmo s) eqn:Et; [rewrite (Sd (Jc Ec) eq_refl)|..]; rec_eq. }
+    { unfold stop_drain. subst s1; cbn. destruct (tmo s) eqn:Et; rec_eq. }
     rewrite Hsd. constructor; subst s1; cbn; rewrite ?Ecc; fin; closer Sf.
   - (* Reconn *)
     cbn [step]. destruct (negb (conn s) && started s && negb (closing s)) eqn:E; [|exact S].
@@ -1042,10 +1042,11 @@ Proof.
 Qed.
 
 (** disconnection parks the timer: no request times out while the client is offline (until the idle tick) *)
-Lemma drop_parks_timer s : conn s = true -> started s = true -> (tmo s = TOff -> tok s = true) ->
+(** since the repair F34 this needs no assumption on the timer: Pause never waits for an expiry that the pump has taken *)
+Lemma drop_parks_timer s : conn s = true -> started s = true ->
   tmo (step Drop s) = TLong /\ tok (step Drop s) = (match tmo s with TOff => false | _ => tok s end) /\ pumpStuck (step Drop s) = pumpStuck s.
 Proof.
-  intros H1 H2 H3. cbn [step]. rewrite H1. cbv zeta.
+  intros H1 H2. cbn [step]. rewrite H1. cbv zeta.
   change (started (emit (set_conn s false) EDrop)) with (started s). rewrite H2.
-  unfold stop_drain. cbn. destruct (tmo s) eqn:E; [rewrite (H3 eq_refl)|..]; cbn; auto.
+  unfold stop_drain. cbn. destruct (tmo s) eqn:E; cbn; auto.
 Qed.
